@@ -238,6 +238,7 @@ pub fn run_c07(ctx: &Ctx) -> (Report, String) {
                 }
             }
         }
+        rep.merge(c08_sequences(ctx));
         // C08's helper files violations under C08-style signatures with property tag C08 in the replay; fine for a witness
     }
     rep.exhaustive = Some(step == 1 && rep.distinct_enumerated == 1 << 24 && rep.violations.is_empty());
@@ -445,6 +446,94 @@ fn c08_planes(k: &Coef, y: Vec<u8>, cb: Vec<u8>, cr: Vec<u8>, w: usize, h: usize
     rep.distinct.insert(fnv64(&[(w >> 8) as u8, w as u8, (h >> 8) as u8, h as u8, fill as u8]));
 }
 
+/// Call sequences on one thread: consecutive conversions share the plane lengths (transposed
+/// shapes, other factorizations of the same area), sometimes the very same bytes; each plane is
+/// a sub-slice at byte offset 0..3 of a larger buffer. Every pixel of every call is compared.
+pub fn c08_sequence_case(ctx: &Ctx, k: usize, rep: &mut Report) {
+    let kf = coef();
+    let mut rng = Rng::new(ctx.seed ^ 0x5e9c08, k as u64);
+    let lim = if ctx.miri() { 10 } else { 36 };
+    let (w0, h0) = (1 + rng.below(lim) as usize, 1 + rng.below(lim) as usize);
+    let area = w0 * h0;
+    let mut shapes: Vec<(usize, usize)> = vec![(w0, h0), (h0, w0)];
+    for d in 1..=area {
+        if area % d == 0 {
+            shapes.push((d, area / d));
+        }
+    }
+    let n = if ctx.miri() { 3 } else { 3 + rng.below(5) as usize };
+    let mut hist = String::new();
+    let mut ybytes = vec![0u8; area];
+    rng.fill(&mut ybytes);
+    let mut cbytes = vec![0u8; 2 * area + 8];
+    rng.fill(&mut cbytes);
+    for i in 0..n {
+        let upto = if rng.chance(2, 3) { 2 } else { shapes.len() };
+        let (w, h) = if i > 0 && rng.chance(1, 6) { (1 + rng.below(30) as usize, 1 + rng.below(30) as usize) } else { *rng.pick(&shapes[..upto]) };
+        let (cw, ch) = ((w + 1) / 2, (h + 1) / 2);
+        if rng.chance(1, 2) {
+            rng.fill(&mut ybytes);
+            rng.fill(&mut cbytes);
+        }
+        let (oy, ob, or) = (rng.below(4) as usize, rng.below(4) as usize, rng.below(4) as usize);
+        let mut ybuf = vec![0x11u8; oy + w * h];
+        let mut bbuf = vec![0x22u8; ob + cw * ch];
+        let mut rbuf = vec![0x33u8; or + cw * ch];
+        for (i, v) in ybuf[oy..].iter_mut().enumerate() {
+            *v = ybytes[i % ybytes.len()];
+        }
+        for (i, v) in bbuf[ob..].iter_mut().enumerate() {
+            *v = cbytes[i % cbytes.len()];
+        }
+        for (i, v) in rbuf[or..].iter_mut().enumerate() {
+            *v = cbytes[(i + cw * ch) % cbytes.len()];
+        }
+        hist.push_str(&format!("{}x{}@{}/{}/{} ", w, h, oy, ob, or));
+        let coords = || J::obj().set("property", "C08").set("kind", "sequence").set("tier", ctx.tier_name()).set("seed", ctx.seed).set("stage", ctx.stage.clone()).set("k", k).set("what", format!("call {} of the sequence [{}]", i, hist.trim_end()));
+        rep.evaluations += 1;
+        let out = match catch(|| yuv420_to_rgba(&ybuf[oy..], &bbuf[ob..], &rbuf[or..], w)) {
+            Ok(o) => o,
+            Err(p) => {
+                rep.violation(format!("panic@{}", p.loc), format!("call {} of the sequence [{}] panicked: {}", i, hist.trim_end(), p.msg), coords());
+                return;
+            }
+        };
+        if out.len() != 4 * w * h {
+            rep.violation("sequence/length", format!("call {} of [{}]: {} bytes, expected {}", i, hist.trim_end(), out.len(), 4 * w * h), coords());
+            return;
+        }
+        for j in 0..h {
+            for x in 0..w {
+                let want = convert_fixed(&kf, ybuf[oy + j * w + x], bbuf[ob + (j / 2) * cw + x / 2], rbuf[or + (j / 2) * cw + x / 2]);
+                if out[4 * (j * w + x)..4 * (j * w + x) + 4] != want {
+                    rep.violation("sequence/pixel", format!("call {} of the sequence [{}]: pixel ({},{}) = {:?}, expected {:?}", i, hist.trim_end(), x, j, &out[4 * (j * w + x)..4 * (j * w + x) + 4], want), coords());
+                    return;
+                }
+            }
+        }
+        rep.count("sequence_calls_ok");
+        if oy % 4 != 0 {
+            rep.count("calls_with_unaligned_luma");
+        }
+    }
+    rep.count("call_sequences");
+    rep.distinct.insert(fnv64(hist.as_bytes()));
+}
+
+fn c08_sequences(ctx: &Ctx) -> Report {
+    let n = if ctx.miri() { 16 } else { ctx.n(3000, 60000) as usize };
+    let reps = par_shards(64, ctx.threads, |sh| {
+        let mut rep = Report::new();
+        let mut k = sh;
+        while k < n {
+            crate::mon::guarded(&mut rep, || J::obj().set("property", "C08").set("kind", "sequence").set("k", k), |rep| c08_sequence_case(ctx, k, rep));
+            k += 64;
+        }
+        rep
+    });
+    Report::merge_all(reps)
+}
+
 pub fn run_c08(ctx: &Ctx) -> (Report, String) {
     let k = coef();
     let maxd: usize = if ctx.stage == "miri" {
@@ -528,6 +617,11 @@ pub fn run_c08(ctx: &Ctx) -> (Report, String) {
         r
     });
     rep.merge(Report::merge_all(er));
+    rep.merge(c08_sequences(ctx));
+    if ctx.is_main() && ctx.scale_pct == 100 {
+        rep.require("call_sequences", 2000);
+        rep.require("calls_with_unaligned_luma", 2000);
+    }
     // the empty picture: documented shortcut; width 0 is the documented companion value
     match catch(|| yuv420_to_rgba(&[], &[], &[], 0)) {
         Ok(o) if o.is_empty() => rep.count("empty_picture_ok"),
@@ -546,6 +640,11 @@ pub fn run_c08(ctx: &Ctx) -> (Report, String) {
 }
 
 pub fn replay_c08(j: &J, rep: &mut Report) {
+    if j.get("kind").and_then(|k| k.as_str()) == Some("sequence") {
+        let ctx = Ctx { tier: if j.get("tier").and_then(|t| t.as_str()) == Some("thorough") { Tier::Thorough } else { Tier::Quick }, seed: j.get("seed").and_then(|v| v.as_i64()).unwrap_or(1) as u64, threads: 1, stage: j.get("stage").and_then(|v| v.as_str()).unwrap_or("chk").to_string(), scale_pct: 100 };
+        c08_sequence_case(&ctx, j.get("k").and_then(|v| v.as_i64()).unwrap_or(0) as usize, rep);
+        return;
+    }
     let k = coef();
     let w = j.get("w").and_then(|v| v.as_i64()).unwrap_or(1) as usize;
     let h = j.get("h").and_then(|v| v.as_i64()).unwrap_or(1) as usize;
